@@ -1,11 +1,11 @@
 CONSTANTS
   Subs <- S2
-  Writers <- W2
-  MaxEvents = 4
+  Writers <- W1
+  MaxEvents = 3
   MaxReconnect = 1
-  Styles <- AllStyles
+  Styles <- SqlOnly
   AtomicAppend = TRUE
   Dev_MemCursorByIndex = TRUE
 SPECIFICATION FairSpec
 INVARIANT TypeOK
-INVARIANT Inv_C16_asis
+INVARIANT Inv_C16_strict
